@@ -72,6 +72,40 @@ pub struct Ctx {
     rules: Mutex<Vec<String>>,
     assumptions: Mutex<Vec<String>>,
     extra: Mutex<Map<String, Value>>,
+    _fin: FinalGuard,
+}
+
+static LAST_PANIC_CASE: Mutex<Option<String>> = Mutex::new(None);
+
+/// Safety net for a panic of the code under test that no `catch` judged: when the main thread
+/// unwinds out of `main` (directly, or because a worker's panic was resumed on it), report the case
+/// that was running as `CRASH-CASE PANIC <case>` and exit 3, so that the driver replays it in fresh
+/// processes and calls it a violation only if it reproduces twice (a harness bug that does not
+/// reproduce from the case alone still ends as a machinery failure). `Ctx` carries one; explorers
+/// that leak their `Ctx` create one at the top of `main`.
+pub struct FinalGuard(());
+impl FinalGuard {
+    pub fn new() -> FinalGuard {
+        FinalGuard(())
+    }
+}
+impl Default for FinalGuard {
+    fn default() -> Self {
+        FinalGuard::new()
+    }
+}
+impl Drop for FinalGuard {
+    fn drop(&mut self) {
+        if std::thread::panicking() {
+            let case = LAST_PANIC_CASE.lock().ok().and_then(|l| l.clone());
+            if let Some(c) = case {
+                use std::io::Write;
+                println!("\nCRASH-CASE PANIC {c}");
+                let _ = std::io::stdout().flush();
+                std::process::exit(3);
+            }
+        }
+    }
 }
 
 fn usage(bin: &str) -> ! {
@@ -110,9 +144,21 @@ impl Ctx {
         }
         let seed = std::env::var("VERIF_SEED").ok().and_then(|s| s.parse().ok()).unwrap_or(0);
         let root = PathBuf::from(std::env::var("VERIF_ROOT").unwrap_or_else(|_| "/verif".into()));
-        if std::env::var("VERIF_PANIC_VERBOSE").is_err() {
-            std::panic::set_hook(Box::new(|_| {}));
-        }
+        // Every panic records the case its thread had announced (most panics are caught and judged
+        // where they happen; this is for the one that is not, see `FinalGuard`). The message itself
+        // is printed only with VERIF_PANIC_VERBOSE.
+        let verbose = std::env::var("VERIF_PANIC_VERBOSE").is_ok();
+        let prev = std::panic::take_hook();
+        std::panic::set_hook(Box::new(move |info| {
+            if let Some(c) = guard::current_case() {
+                if let Ok(mut l) = LAST_PANIC_CASE.lock() {
+                    *l = Some(c);
+                }
+            }
+            if verbose {
+                prev(info);
+            }
+        }));
         guard::install();
         if let Some(n) = std::env::var("VERIF_HANG_SECS").ok().and_then(|s| s.parse().ok()) {
             guard::set_hang_secs(n);
@@ -139,6 +185,7 @@ impl Ctx {
             rules: Mutex::new(Vec::new()),
             assumptions: Mutex::new(Vec::new()),
             extra: Mutex::new(Map::new()),
+            _fin: FinalGuard::new(),
         }
     }
 
